@@ -258,7 +258,8 @@ def run_impl(prop, cases, seeds, extra_env=None, timeout=3000):
     results = {}
     procs = []
     for s in seeds:
-        inp = os.path.join(SCRATCH, "%s_cases_%d.json" % (prop, s)); outp = os.path.join(SCRATCH, "%s_out_%d.json" % (prop, s))
+        tag = "%s_%d_%d" % (prop, os.getpid(), s)        # unique per process: checks of the same property may run concurrently
+        inp = os.path.join(SCRATCH, "%s_cases.json" % tag); outp = os.path.join(SCRATCH, "%s_out.json" % tag)
         with open(inp, "w") as f: json.dump(cases, f)
         env = dict(os.environ); env.update({"PYTHONPATH": REPO + os.pathsep + os.path.join(VERIF, "harness"), "PYTHONHASHSEED": str(s), "PYTHONUTF8": "1",
                                             "PYTHONDONTWRITEBYTECODE": "1", "CF_REPO": REPO})
@@ -274,6 +275,8 @@ def run_impl(prop, cases, seeds, extra_env=None, timeout=3000):
             raise RuntimeError("implementation worker failed (seed %d): %s" % (s, err[-3000:]))
         with open(outp) as f: results[s] = json.load(f)
         os.remove(outp)
+        try: os.remove(outp.replace("_out.json", "_cases.json"))
+        except OSError: pass
     return results
 
 def sha(obj):
